@@ -266,24 +266,25 @@ def _aper_specs():
                                     RectangularAnnulus, RectangularAperture)
     P1 = (3.2, 4.7)
     P3 = [(3.2, 4.7), (10.0, 2.5), (-1.0, 7.0)]
+    L1 = [(8.5, 1.5)]       # one position as a list: not a scalar aperture
     return {
         'circ': (CircularAperture, dict(positions=P1, r=2.0),
-                 dict(positions=[P3, (8.5, 1.5)], r=[3.7, 0.6])),
+                 dict(positions=[P3, (8.5, 1.5), L1], r=[3.7, 0.6])),
         'ell': (EllipticalAperture, dict(positions=P1, a=3.0, b=1.5,
                                          theta=0.3),
-                dict(positions=[P3], a=[4.5], b=[0.7], theta=[1.2, -0.4])),
+                dict(positions=[P3, L1, (8.5, 1.5)], a=[4.5], b=[0.7], theta=[1.2, -0.4])),
         'rect': (RectangularAperture, dict(positions=P1, w=3.0, h=1.5,
                                            theta=0.3),
-                 dict(positions=[P3], w=[5.5], h=[2.5], theta=[1.2])),
+                 dict(positions=[P3, L1, (8.5, 1.5)], w=[5.5], h=[2.5], theta=[1.2])),
         'cann': (CircularAnnulus, dict(positions=P1, r_in=1.0, r_out=2.5),
-                 dict(positions=[P3], r_in=[2.0], r_out=[4.0])),
+                 dict(positions=[P3, L1, (8.5, 1.5)], r_in=[2.0], r_out=[4.0])),
         'eann': (EllipticalAnnulus, dict(positions=P1, a_in=1.0, a_out=3.0,
                                          b_out=2.0, theta=0.2),
-                 dict(positions=[P3], a_out=[4.0], b_out=[1.2],
+                 dict(positions=[P3, L1, (8.5, 1.5)], a_out=[4.0], b_out=[1.2],
                       theta=[0.9])),
         'rann': (RectangularAnnulus, dict(positions=P1, w_in=1.0, w_out=3.0,
                                           h_out=2.0, theta=0.2),
-                 dict(positions=[P3], w_out=[4.0], h_out=[3.1],
+                 dict(positions=[P3, L1, (8.5, 1.5)], w_out=[4.0], h_out=[3.1],
                       theta=[0.9])),
     }
 
